@@ -1181,6 +1181,11 @@ class CSemantics:
 
         if self.equal_types(from_type, to_type):
             pass
+        elif from_type.is_void:
+            self.error(
+                f"Cannot convert {from_type} to {to_type}",
+                expr.location,
+            )
         elif isinstance(
             from_type, (types.PointerType, types.EnumType)
         ) and isinstance(to_type, types.BasicType):
